@@ -41,10 +41,10 @@ for l in open(os.path.join(pend, "confirm.log")):
         confirm[f[0]] = l.strip()
 own_log = parse_log(os.path.join(pend, "detect_own.log"))
 # the last sweeps against the committed machinery (checklib/psweep.py): rounds 1-5, then round 6 (+ the one change the first missed)
-for fn in ("detect_own_final.log", "detect_own_r6_final.log", "detect_own_r6_final2.log"):
+for fn in ("detect_own_final.log", "detect_own_r6_final.log", "detect_own_r6_final2.log", "detect_own_r7_final.log", "detect_own_r7_final2.log", "detect_own_all_final.log"):
     own_log.update(parse_log(os.path.join(pend, fn)))
 full = {}
-for fn in ("detect.log", "detect_r2.log", "detect_r3.log", "detect_own_r4.log", "detect_own_r5.log", "detect_own_r6.log"):
+for fn in ("detect.log", "detect_r2.log", "detect_r3.log", "detect_own_r4.log", "detect_own_r5.log", "detect_own_r6.log", "detect_own_r7.log"):
     full.update(parse_log(os.path.join(pend, fn)))
 
 
@@ -67,7 +67,7 @@ def own_verdict(entry):
 
 kept = []
 # rounds 2 and 3 from the staging area
-for d in sorted(glob.glob(os.path.join(pend, "C*r[23456]", "[0-9]"))):
+for d in sorted(glob.glob(os.path.join(pend, "C*r[234567]", "[0-9]"))):
     prop, n = d.split("/")[-2], d.split("/")[-1]
     key = f"{prop}_{n}"
     c = confirm.get(key, "")
@@ -127,7 +127,7 @@ with open(os.path.join(out, "DETECTION.md"), "w") as f:
     f.write("# Seeded changes and the checks that report them\n\n"
             "`first run` = the quick check of the property the change was written for, with the machinery as it was when the change arrived; "
             "`final` = the same check with the machinery as committed (checklib/run_own_checks.py); `others` = fast checks of other properties that "
-            "also fired in the full sweep of that round. Strengthenings between the two columns are listed in DESIGN.md 13.6 / 13.9 / 13.12 / 13.16 / 13.17.\n\n")
+            "also fired in the full sweep of that round. Strengthenings between the two columns are listed in DESIGN.md 13.6 / 13.9 / 13.12 / 13.16 / 13.17 / 13.19.\n\n")
     f.write("| change | property | first run | final | others | what |\n|---|---|---|---|---|---|\n")
     for r in rows:
         f.write("| " + " | ".join(r) + " |\n")
